@@ -48,8 +48,7 @@ Proof.
       { apply orb_true_iff in M. destruct M as [M|M].
         - apply andb_true_iff in M. destruct M as [M _]. apply str_eqb_eq. exact M.
         - apply H; [left; reflexivity|exact M]. }
-      rewrite E, set_f_symbol_id. specialize (IH used H').
-      destruct (normalize_fk_inner n1 n2 fk1 l used). exact IH.
+      rewrite E, set_f_symbol_id. reflexivity.
     + specialize (IH used H'). destruct (normalize_fk_inner n1 n2 fk1 l used). exact IH.
 Qed.
 
@@ -341,12 +340,62 @@ Proof.
   - repeat constructor; simpl; intuition discriminate.
 Qed.
 
-Lemma w_schema1_diff :
-  SchemaDiff sqlite_driver no_skip w_schema1 w_schema1 =
-  Some [ModifyTable [116]%N [DropIndex (i_name w_autoindex); AddIndex [116;95;99]%N]].
+(** since the fixes of FindGeneratedIndex (99ad7b6) and Normalize (5832478) both are empty *)
+Lemma w_schema1_diff : SchemaDiff sqlite_driver no_skip w_schema1 w_schema1 = Some [].
 Proof. vm_compute. reflexivity. Qed.
 
-Lemma w_schema2_diff :
-  SchemaDiff sqlite_driver no_skip w_schema2 w_schema2 =
-  Some [ModifyTable [116]%N [AddForeignKey [97]%N]].
+Lemma w_schema2_diff : SchemaDiff sqlite_driver no_skip w_schema2 w_schema2 = Some [].
+Proof. vm_compute. reflexivity. Qed.
+
+(** what still fails.  Witness 6: the autoindex of a UNIQUE column next to a user index that
+    already carries the normalized name t_c: after Normalize the desired side has two indexes
+    called t_c, and the user's one is compared with the renamed (unique) autoindex. *)
+Definition w_user_idx : index := mkIndex [116;95;99]%N false [mkPart 1 false (Some [99]%N) None] None None None.
+Definition w_table6 : table := mkTable [116]%N false false [w_col] None [w_autoindex; w_user_idx] [] [].
+Definition w_schema6 : schema := mkSchema [109]%N [w_table6].
+
+Lemma w_table6_wf : wf_table w_table6.
+Proof.
+  constructor; simpl.
+  - repeat constructor; simpl; tauto.
+  - repeat constructor; simpl; intuition discriminate.
+  - intros i [<-|[<-|[]]]; (constructor; [left; discriminate|constructor]).
+  - discriminate.
+  - constructor.
+Qed.
+
+Lemma w_schema6_diff :
+  SchemaDiff sqlite_driver no_skip w_schema6 w_schema6 =
+  Some [ModifyTable [116]%N [ModifyIndex [116;95;99]%N ChangeUnique]].
+Proof. vm_compute. reflexivity. Qed.
+
+(** Witness 3: two foreign keys of the same shape with different ON DELETE, listed in the
+    other order: Normalize pairs a with b (first unused match by shape). *)
+Definition w_fk_act (sym : N) (act : str) : fkey := mkFk [sym] [[99]%N] [116]%N [[99]%N] [] act.
+Definition CASCADE : str := [67;65;83;67;65;68;69]%N.
+Definition SET_NULL : str := [83;69;84;32;78;85;76;76]%N.
+Definition w_table3 : table := mkTable [116]%N false false [w_col] None [] [w_fk_act 97 CASCADE; w_fk_act 98 SET_NULL] [].
+Definition w_table3p : table := mkTable [116]%N false false [w_col] None [] [w_fk_act 98 SET_NULL; w_fk_act 97 CASCADE] [].
+Definition w_schema3 : schema := mkSchema [109]%N [w_table3].
+Definition w_schema3p : schema := mkSchema [109]%N [w_table3p].
+
+Lemma w_table3_wf : wf_table w_table3.
+Proof.
+  constructor; simpl.
+  - repeat constructor; simpl; tauto.
+  - constructor.
+  - intros i [].
+  - discriminate.
+  - repeat constructor; simpl; intuition discriminate.
+Qed.
+
+Lemma w_schema3_perm : schema_perm w_schema3 w_schema3p.
+Proof.
+  split; [reflexivity|]. exists [w_table3p]. split; [|apply Permutation_refl].
+  constructor; [|constructor]. repeat split; try apply Permutation_refl. simpl. apply perm_swap.
+Qed.
+
+Lemma w_schema3_diff :
+  SchemaDiff sqlite_driver no_skip w_schema3 w_schema3p =
+  Some [ModifyTable [116]%N [ModifyForeignKey [98]%N ChangeDeleteAction; ModifyForeignKey [97]%N ChangeDeleteAction]].
 Proof. vm_compute. reflexivity. Qed.
